@@ -56,6 +56,9 @@ def definitions(tier):
     for pc in period_choices:
         for ts in tracksets:
             out.append([dict(stream=pc[0], start=pc[1], duration=pc[2], tracks=ts)])
+    # a text track, which has fewer and longer segments than the timing reference of its stream (bbb_t1: 4 x 10 s)
+    for start, dur in ((0.0, 40.0), (10.0, 20.0), (4.0, 12.0)):
+        out.append([dict(stream='bbb', start=start, duration=dur, tracks=[('video', 1), ('audio', 2), ('text', 4)])])
     # two and three periods: pairs/triples over a reduced set (all ordered pairs of distinct "interesting" choices)
     core_choices = [pc for pc in period_choices if pc[1] in (0.0, 1.5 * SEG[pc[0]]) and pc[2] != TOTAL[pc[0]] - pc[1]]
     if tier == 'quick':
